@@ -176,6 +176,11 @@ func getPayeeOrDescription(tx *ast.Transaction) string {
 }
 
 func estimatePayeeRange(tx *ast.Transaction, payee string) ast.Range {
+	// the parser records where the payee (or description) stands; the estimate below is only
+	// used for transactions that were built without positions
+	if tx.PayeeRange.Start.Line != 0 {
+		return tx.PayeeRange
+	}
 	startCol := tx.Date.Range.End.Column + 1
 	if tx.Status != ast.StatusNone {
 		startCol += 2
